@@ -315,4 +315,15 @@ ITEMS = location_types() + budget_types() + error_types() + [
          ensures=[('C09:a_byte_slice_is_read_exactly_like_the_string_it_encodes_and_invalid_utf8_is_an_error',
                    'r == (if valid_utf8(bytes@) { sp_from_multiple(bytes@, options) } else { Err::<TargetVec, Error>(Error::InvalidUtf8Input) })')],
          canaries=['C09:a_byte_slice_is_read_exactly_like_the_string_it_encodes_and_invalid_utf8_is_an_error']),
+    dict(src=D, path=YD + 'fn deserialize_ignored_any', id='YamlDeserializer::deserialize_ignored_any',
+        impl_header="impl<'de, 'e> YamlDeserializer<'de, 'e>", props=['C05', 'C01'],
+        attrs='#[verifier::exec_allows_no_decreases_clause]',
+        pre_rewrites=[(r"fn deserialize_ignored_any<V: Visitor<'de>>\((mut )?self, visitor: V\) -> Result<V::Value, Self::Error>",
+                       r'fn deserialize_ignored_any(\1self, visitor: Vis) -> Result<VisVal, Error>', 1, 'R9')],
+        ensures=[('C05:an_ignored_position_still_needs_a_node_a_dangling_container_end_is_an_error', '''({ let rest0 = old(self.ev).rest();
+                rest0.len() > 0 && (rest0[0] is SeqEnd || rest0[0] is MapEnd || rest0[0] is Taken) ==> r is Err })'''),
+                 ('C05:an_ignored_scalar_is_interpreted_like_an_untyped_one', '''({ let rest0 = old(self.ev).rest();
+                r is Ok && rest0.len() > 0 && rest0[0] is Scalar && rest0[0]->Scalar_style is Plain && (rest0[0]->Scalar_tag is None || rest0[0]->Scalar_tag is Other) && !unit_scalar(rest0[0])
+                    ==> r == sp_infer_plain(visitor, rest0[0]->Scalar_value@, rest0[0]->Scalar_tag, self.cfg) })''')],
+        canaries=['C05:an_ignored_position_still_needs_a_node_a_dangling_container_end_is_an_error']),
 ]
